@@ -21,7 +21,7 @@ RULE = (
     "(general path)}; transitions = API calls on the real code (builder ops + one compile per derivative callable: "
     "compile_gradient, compile_jacobian, compile_hessian, CompiledExpression.gradient, for V full / reversed / "
     "superset); an evaluation = one entry of a returned array at a point of the singular grid (+-0.0, +-1, +-2, 0.5, "
-    "float(pi/2); vector origin / one zero entry) checked for finiteness, for equality with the reference where "
+    "float(pi/2); vector origin / one zero entry; atoms over the affine inner function 2x-1; norms of shifted vectors) checked for finiteness, for equality with the reference where "
     "the entry is regular, for the stated value (0 / +-1e16) on the bare atoms, and for entry-wise agreement of "
     "the vectorised and the element-by-element build.  Non-trivial = case with >=1 singular entry observed."
 )
@@ -78,6 +78,24 @@ def all_cases():
         yield {"id": ("scalar", atom, "scaled"), "rows": (("bin", "*", ("c", 3), atom),)}
         yield {"id": ("scalar", atom, "2rows"), "rows": (R, atom)}
         yield {"id": ("scalar", atom, "square"), "rows": (("bin", "*", atom, atom),)}
+    # atoms over an affine inner function: the singular set moves to x = 0.5 (on the grid)
+    G = ("bin", "-", ("bin", "*", ("c", 2), X), ("c", 1))
+    for f in ("abs", "sqrt", "log", "asin", "acosh"):
+        atom = ("un", f, G if f != "acosh" else ("bin", "+", G, ("c", 1)))
+        yield {"id": ("inner", f, "alone"), "rows": (atom,)}
+        yield {"id": ("inner", f, "+R"), "rows": (("bin", "+", atom, R),)}
+        yield {"id": ("inner", f, "2rows-both-singular"), "rows": (("un", "abs", X), atom)}
+        yield {"id": ("inner", f, "xatom"), "rows": (("bin", "*", atom, ("un", "abs", Y)),)}
+    for k in (-1, 0.5, 1.5, -0.5):
+        atom = ("bin", "**", G, ("c", k))
+        yield {"id": ("inner-pow", k, "alone"), "rows": (atom,)}
+        yield {"id": ("inner-pow", k, "2rows"), "rows": (atom, R)}
+    for o in (1, 2):
+        d = ("vbin", "-", V3, ("arr", (0.5, 0.0, 2.0)))          # zero at the grid point (0.5, 0, 2)
+        yield {"id": ("norm-of-shifted", o, "alone"), "rows": (("norm", d, o),)}
+        yield {"id": ("norm-of-shifted", o, "+R"), "rows": (("bin", "+", ("norm", d, o), R),)}
+        yield {"id": ("norm", o, "both-rows"), "rows": (("norm", V3, 1), ("norm", V3, 2))}
+        yield {"id": ("norm", o, "squared"), "rows": (("bin", "**", ("norm", V3, o), ("c", 2)),)}
     for o in (1, 2):
         n = ("norm", V3, o)
         yield {"id": ("norm", o, "alone"), "rows": (n,), "norm": o}
@@ -167,6 +185,9 @@ def check_case(case, tier, seed, rep=None, want=None):
     core = sorted(names, key=natural_key)
     if core and core != wrt:
         menus.append(("exact", core))
+    if len(wrt) > 2:
+        menus.append(("foreign-first", [w for w in wrt if w not in core] + core))
+        menus.append(("rotated", wrt[1:] + wrt[:1]))
     singular_seen = 0
     for vlab, vn in menus:
         perm = [pos[n] for n in vn]
